@@ -99,6 +99,27 @@ def stack_events(c, ev):
         x = bool(re.search(r'\.note\.GNU-stack\s+\S+\s+\S+\s+\S+\s+\S+\s+\S+\s+\S*X', sec))
         ev.append({'e': 'elf.stack', 'object': os.path.relpath(o, B), 'flags': 'note' if has else 'no-note', 'exec': 0 if (has and not x) else 1}); c.distinct([('stack', o)])
 
+def cross_stack_events(c, ev):
+    """the same question for a build configured the way toolchain files / Yocto / buildroot do (CMAKE_SYSTEM_NAME set, so
+    CMAKE_CROSSCOMPILING is true): the shared library must not ask for an executable stack there either"""
+    B = BUILD + '/cross'
+    os.makedirs(B, exist_ok=True)
+    if not os.path.exists(B + '/build.ninja'):
+        rc, out = sh(['cmake', '-G', 'Ninja', '-S', REPO, '-B', B, '-DCMAKE_SYSTEM_NAME=Linux', '-DCMAKE_SYSTEM_PROCESSOR=x86_64', '-DMINIMAL=ON'], timeout=300)
+        if rc != 0: raise Infra('cross-style configuration failed: ' + out[-300:])
+    rc, out = sh(['ninja', '-C', B, 'ascon_static'], timeout=900)
+    if rc != 0:
+        rd = c.replay_dir('cross_build'); open(rd + '/build.log', 'w').write(out)
+        open(rd + '/replay.sh', 'w').write('#!/bin/sh\ncmake -G Ninja -S /repo -B /tmp/cross -DCMAKE_SYSTEM_NAME=Linux -DCMAKE_SYSTEM_PROCESSOR=x86_64 -DMINIMAL=ON && ninja -C /tmp/cross ascon_static\n')
+        c.violation('build:cross', 'the library does not build when CMAKE_SYSTEM_NAME is set: ' + out[-300:], rd); return
+    # every object assembled from a .S file carries a non-executable .note.GNU-stack (otherwise whoever links it gets an executable stack)
+    rc, out = sh('find %s/src/CMakeFiles/ascon_static.dir -name "*.S.o"' % B)
+    for o in sorted(out.split()):
+        rc, sec = sh(['readelf', '-SW', o])
+        has = '.note.GNU-stack' in sec
+        x = bool(re.search(r'\.note\.GNU-stack\s+\S+\s+\S+\s+\S+\s+\S+\s+\S+\s+\S*X', sec))
+        ev.append({'e': 'elf.stack', 'object': 'cross/' + os.path.relpath(o, B), 'flags': 'note' if has else 'no-note', 'exec': 0 if (has and not x) else 1}); c.distinct([('stack', 'cross', o)])
+
 def run(c):
     th = c.tier == 'thorough'
     c.assumptions += ['part 1 (all 18 files): byte-for-byte equality with what the generator programs emit; part 2 semantics: x86-64 (plain and masked x2/x3/x4) and i386 run natively, AVR5 runs on the generator\'s own instruction interpreter, the remaining nine files (ARMv6, ARMv6-M, ARMv7-M, ARMv8-A, m68k, RISC-V x3, Xtensa) only where tools/asmint.py has an interpreter for them (listed in coverage.interpreted); part 3 ABI: register sentinels and stack pointer through assembly trampolines on x86-64 and i386; part 4: GNU_STACK of the built shared library, tools and every object assembled from a .S',
@@ -109,6 +130,7 @@ def run(c):
     i386_events(c, ev, sts)
     avr_events(c, ev, sts[: (20 if th else 6)])
     stack_events(c, ev)
+    cross_stack_events(c, ev)
     try:
         import asmint
         asmint.events(c, ev, sts[: (40 if th else 4)])
